@@ -5,6 +5,7 @@
 From Coq Require Import List NArith Bool Arith.
 From MV Require Import Base.PyStr Base.Res Html.HtmlTypes Gen.Html.
 Import ListNotations.
+Local Open Scope nat_scope.
 
 (* ------------------------------------------------------------------ events of html.parser *)
 
@@ -272,7 +273,7 @@ Fixpoint dict_get (d : attrs) (k : str) : option (option str) :=
 Definition attr_getitem (d : attrs) (k : str) : option str :=
   match dict_get d k with Some v => v | None => Some [] end.
 
-Definition s_class : str := [99; 108; 97; 115; 115].
+Definition s_class : str := [99; 108; 97; 115; 115]%N.
 
 (* Attribute.classes: (self["class"] or "").split() *)
 Definition classes (d : attrs) : list str :=
@@ -423,6 +424,8 @@ Definition strip_top (st : store) (i : nat) (inplace recurse : bool) :=
 
 (* ------------------------------------------------------------------ specification side *)
 
+Local Open Scope N_scope.
+
 (* well-formed HTML documents as syntax trees *)
 Inductive html : Type :=
 | HElem (n : str) (a : attrs) (ch : list html)    (* <n a>ch</n> *)
@@ -484,12 +487,10 @@ Definition spec_void : list str :=
    [104; 114]; [105; 109; 103]; [105; 110; 112; 117; 116]; [108; 105; 110; 107]; [109; 101; 116; 97];
    [112; 97; 114; 97; 109]; [115; 111; 117; 114; 99; 101]; [116; 114; 97; 99; 107]; [119; 98; 114]].
 
-Open Scope N_scope.
 Definition is_lower (c : N) : bool := (97 <=? c) && (c <=? 122).
 Definition is_upper (c : N) : bool := (65 <=? c) && (c <=? 90).
 Definition is_digit (c : N) : bool := (48 <=? c) && (c <=? 57).
 Definition is_hex (c : N) : bool := is_digit c || ((97 <=? c) && (c <=? 102)) || ((65 <=? c) && (c <=? 70)).
-Close Scope N_scope.
 
 (* lower-case ASCII name: [a-z][a-z0-9-]* *)
 Definition wf_name (n : str) : bool :=
@@ -500,7 +501,7 @@ Definition wf_name (n : str) : bool :=
 
 Definition no_char (c : N) (s : str) : bool := negb (mem_N c s).
 
-(* attribute value: double-quoted without '"' and '&', or absent *)
+(* attribute value: double-quoted, containing neither a double quote nor an ampersand; or absent *)
 Definition wf_value (v : option str) : bool :=
   match v with None => true | Some s => no_char 34 s && no_char 38 s end.
 
